@@ -18,6 +18,7 @@ from mc.recorders import make_model
 from mc.ref.tdc import ref_qvalues
 
 PROPERTY = "C12"
+SIZE_MODULES = ['mokapot.model', 'mokapot.dataset']  # see mc.runner._sized_passes
 LEVEL = "exploration"
 RULE = (
     "case = (dataset of n PSMs, row permutation (all n!), shuffle flag, max_iter, estimator kind); every logged "
